@@ -142,6 +142,10 @@ class Context:
         with open(os.path.join(evdir, self.prop + ".json"), "w") as f:
             json.dump(ev, f, indent=1)
         # output
+        if os.environ.get("VERIF_LIST"):
+            for o in self.obligations:
+                if os.environ["VERIF_LIST"] in ("1", "") or os.environ["VERIF_LIST"] in o["rule"]:
+                    print("OB %s [%s] %s %s @%s: %s" % ("ok " if o["ok"] else "BAD", o["rule"], o["function"], o["construct"], o["where"], o["detail"][:300]))
         for o, k in known_hit:
             print("KNOWN-FINDING: property=%s %s %s [%s] at %s: %s" % (self.prop, o["function"], o["construct"], o["rule"], o["where"], k.get("description", o["detail"])))
         if self.broken:
